@@ -54,7 +54,8 @@ fn main() {
         println!("ORACLE-SELFTEST-FAILED {}", e);
         std::process::exit(3);
     }
-    let (rep, rule) = match args.monitor.as_str() {
+    let storm = monlib::storm::start_from_env();
+    let (mut rep, rule) = match args.monitor.as_str() {
         "c01" => (c01::run(&args), c01::RULE),
         "c02" => (c02::run(&args), c02::RULE),
         "c03" => (c03::run(&args), c03::RULE),
@@ -100,5 +101,13 @@ fn main() {
             std::process::exit(2);
         }
     };
+    if let Some(us) = storm {
+        monlib::storm::stop();
+        rep.count("sigstorm_interval_us", us);
+        rep.count("sigstorm_signals_handled", monlib::storm::handled());
+        if monlib::storm::handled() == 0 {
+            rep.inconclusive.push("signal storm requested but no signal was handled".into());
+        }
+    }
     run::emit(&args, &args.monitor, rule, &rep);
 }
